@@ -207,3 +207,17 @@ Theorem view_bounds_type_independent t1 t2 s n :
   0 <= n <= i64_max -> sel_in t1 s = true -> sel_in t2 s = true ->
   view_bounds t1 s n = view_bounds t2 s n.
 Proof. intros Hn H1 H2. rewrite !view_bounds_py by assumption. reflexivity. Qed.
+
+(* ---------- the specification itself, characterised by element membership ---------- *)
+(* py_slice returns the interval of exactly the selected elements (and None when there is none) *)
+Theorem py_slice_member n s k : 0 <= n ->
+  (selects n s k <-> match py_slice n s with Some (a, b) => a <= k < b | None => False end).
+Proof.
+  intros Hn. unfold selects, py_slice, norm, py_bound, py_past, py_elem.
+  destruct s as [i|a b|a|b|a b|b|]; cbv zeta;
+    repeat match goal with
+           | |- context [?x <? ?y] => destruct (Z.ltb_spec x y)
+           | |- context [?x <=? ?y] => destruct (Z.leb_spec x y)
+           | |- context [(?p && ?q)%bool] => cbn [andb]
+           end; cbn [andb]; try lia.
+Qed.
